@@ -224,7 +224,7 @@ def run_c20(prop, tier, seed, replay):
     build_side()
     rnd = random.Random(seed)
     maxlen = 5 if tier == "quick" else 7
-    cfg = "CONSTANTS\n  Limit = 80\n  Base = 6\n  Classes = {2, 24, 36, 72, 73, 90}\n  MaxLen = %d\nSPECIFICATION FairSpec\nINVARIANTS Small Sound Complete Emit\nPROPERTIES Termination Decreases\nCHECK_DEADLOCK FALSE\n" % maxlen
+    cfg = "CONSTANTS\n  Limit = 80\n  Base = 6\n  Classes = {2, 24, 36, 72, 73, 90, 200}\n  MaxLen = %d\nSPECIFICATION FairSpec\nINVARIANTS Small Sound Complete Emit\nPROPERTIES Termination Decreases\nCHECK_DEADLOCK FALSE\n" % maxlen
     if replay:
         rec = json.load(open(replay))
         cases = [dict(sz=rec["observation"]["classes"])]
@@ -243,12 +243,12 @@ def run_c20(prop, tier, seed, replay):
         nbig = 12 if tier == "quick" else 120
         for _ in range(nbig):
             n = rnd.choice([20, 64, 199, 500, 2000 if tier != "quick" else 300])
-            cases.append(dict(sz=[rnd.choice([2, 2, 2, 24, 36, 72, 73, 90]) for _ in range(n)]))
+            cases.append(dict(sz=[rnd.choice([2, 2, 2, 24, 36, 72, 73, 90, 200, 500]) for _ in range(n)]))
     obs = run_harness("jaeger", cases, "C20", seed)
     viols, consumed, lines = validate_side(obs, "C20")
     E.log("C20: %d cases on the real reporter, %d violations" % (consumed, len(viols)))
     return finish(prop, tier, seed, t0, "model_checking", mc["distinct"], mc["states"], consumed, len({tuple(c["sz"]) for c in cases}),
-                  "every size vector up to length %d over {tiny, third, half, just below, just at, oversize} (TLC model checks the transcribed loop on all of them and prints them), "
+                  "every size vector up to length %d over {tiny, third, half, just below, just at, oversize, 2.5 x oversize} (TLC model checks the transcribed loop on all of them and prints them), "
                   "plus random long batches; each is run through the real JaegerReporter against a loopback socket, datagrams decoded by an independent Thrift decoder; distinct = distinct vectors" % maxlen,
                   [json.loads(l) for l in lines[:3]], viols, lines, dict(model_violates=mc.get("violated", False), exhaustive=not replay), dict(kind="jaeger"))
 
